@@ -44,6 +44,50 @@ def np_array(ex, p, args, kwargs, e): return args[0]
 # ---- np.random.choice(a, size, p=p) with replacement, a and p concrete-length (the tie indicator draw):
 #      every element is some a[c]; a value of probability 0 never occurs.  Preconditions (ValueError otherwise):
 #      probabilities non-negative and summing to 1.
+def np_arange(ex, p, args, kwargs, e):
+    """np.arange(a, b): the integers a..b-1 in order (T10)"""
+    from . import listsets
+    lo, hi = args[0].t, args[1].t
+    n = z3.If(hi > lo, hi - lo, 0); arr = fresh('arange', z3.ArraySort(I, I)); j = fresh('j', I); x = fresh('x', I)
+    p.assume(z3.ForAll([j], z3.Implies(z3.And(0 <= j, j < n), arr[j] == lo + j)))
+    v = VList(n, arr, 'int')
+    if ex.listsets:
+        p.assume(listsets.DupFree(v.term()))
+        p.assume(z3.ForAll([x], z3.Select(listsets.Elems(v.term()), x) == z3.And(lo <= x, x < hi)))
+    return v
+
+
+def np_random_randint(ex, p, args, kwargs, e):
+    """np.random.randint(a, b): some integer in [a, b) (ValueError when the range is empty)"""
+    lo, hi = args[0].t, args[1].t
+    ex.vc('no-raise/randint-empty-range@%d' % e.lineno, p, lo < hi, line=e.lineno)
+    r = fresh('randint', I); p.assume(z3.And(lo <= r, r < hi))
+    return VInt(r)
+
+
+def np_random_choice(ex, p, args, kwargs, e):
+    if 'replace' in kwargs: return np_random_choice_distinct(ex, p, args, kwargs, e)
+    return np_random_choice_small(ex, p, args, kwargs, e)
+
+
+def np_random_choice_distinct(ex, p, args, kwargs, e):
+    """np.random.choice(a, k, replace=False, p=w): k distinct elements of a.  Preconditions (ValueError otherwise): 0 <= k,
+    len(w) == len(a), weights non-negative and summing to 1, at least k weights positive."""
+    from . import listsets
+    a = args[0]; k = args[1]; w = kwargs.get('p'); line = e.lineno
+    if not (isinstance(a, VList) and a.kind == 'int' and isinstance(k, VInt) and isinstance(w, VList) and w.kind == 'real'): raise Undecided('np.random.choice form')
+    j = fresh('j', I)
+    ex.vc('no-raise/choice-size@%d' % line, p, z3.And(0 <= k.t, k.t <= a.len), line=line)
+    ex.vc('no-raise/choice-weights-length@%d' % line, p, w.len == a.len, line=line)
+    ex.vc('no-raise/choice-weights-positive@%d' % line, p, z3.ForAll([j], z3.Implies(z3.And(0 <= j, j < w.len), z3.Select(w.arr, j) > 0)), line=line)
+    ex.vc('no-raise/choice-weights-sum-to-one@%d' % line, p, ex.lemmas.SumR(w.arr, w.len) == 1, line=line)
+    arr = fresh('chosen', z3.ArraySort(I, I)); v = VList(k.t, arr, 'int'); x = fresh('x', I)
+    if ex.listsets:
+        p.assume(listsets.DupFree(v.term()))
+        p.assume(z3.ForAll([x], z3.Implies(z3.Select(listsets.Elems(v.term()), x), z3.Select(listsets.Elems(a.term()), x))))
+    return v
+
+
 def np_random_choice_small(ex, p, args, kwargs, e):
     a = args[0]; size = args[1]; pr = kwargs.get('p'); line = e.lineno
     if kwargs.get('replace') is not None or not isinstance(a, VCList) or not isinstance(pr, VCList) or len(a.items) != len(pr.items):
@@ -83,5 +127,7 @@ def install(ex):
     ex.iter_models['product_enum'] = iter_product
     ex.ext_models['np.sum'] = np_sum
     ex.ext_models['np.array'] = np_array
-    ex.ext_models['np.random.choice'] = np_random_choice_small
+    ex.ext_models['np.random.choice'] = np_random_choice
+    ex.ext_models['np.arange'] = np_arange
+    ex.ext_models['np.random.randint'] = np_random_randint
     ex.stmt_models['random.shuffle'] = random_shuffle
